@@ -63,21 +63,29 @@ package stringlib
 //@   allocs charged slack 0
 //@   loop 1: invariant 0 <= i && i <= len(s) && len(sb) == len(s) && l == len(s) - 1
 
+// string.lower / string.upper are byte-wise (strings are byte sequences and the
+// C locale is assumed, manual 6.4): the result has the length of the argument
+// and each byte is the argument's, with exactly the ASCII letters of the other
+// case mapped (C19); bytes >= 0x80 and invalid UTF-8 are left alone.
 //@ func lower
-//@   prop C06 C04
+//@   prop C06 C04 C19
 //@   arith int
 //@   requires goFuncPre(t, c) && t.Runtime != nil && c.GoFunction != nil && c.next != nil && len(c.args) == 1
 //@   modifies everything()
 //@   exits ContextTerminationError
 //@   allocs charged slack 0
+//@   loop 1: invariant 0 <= i && i <= len(s) && len(b) == len(s) && forall(k, 0, i, b[k] == ite('A' <= s[k] && s[k] <= 'Z', s[k] + 32, s[k]))
+//@   assert_before_call StringValue: len(b) == len(s) && forall(k, 0, len(s), b[k] == ite('A' <= s[k] && s[k] <= 'Z', s[k] + 32, s[k]))
 
 //@ func upper
-//@   prop C06 C04
+//@   prop C06 C04 C19
 //@   arith int
 //@   requires goFuncPre(t, c) && t.Runtime != nil && c.GoFunction != nil && c.next != nil && len(c.args) == 1
 //@   modifies everything()
 //@   exits ContextTerminationError
 //@   allocs charged slack 0
+//@   loop 1: invariant 0 <= i && i <= len(s) && len(b) == len(s) && forall(k, 0, i, b[k] == ite('a' <= s[k] && s[k] <= 'z', s[k] - 32, s[k]))
+//@   assert_before_call StringValue: len(b) == len(s) && forall(k, 0, len(s), b[k] == ite('a' <= s[k] && s[k] <= 'z', s[k] - 32, s[k]))
 
 // ---------------------------------------------------------------------------
 // C17: the format tables of string.pack and string.unpack agree (manual §6.4.2):
